@@ -11,7 +11,7 @@
 (*   C  a freshly started instance of the content A loaded, created when A  *)
 (*      reloads and fed with the same inputs from then on; compared from   *)
 (*      the first idle point after the reload on (no physical key held and *)
-(*      the processing loop would block).                                  *)
+(*      the processing loop of both A and C would block).                  *)
 (* The lanes are produced by the real code (harness `reload`, trace check) *)
 (* or by the detailed model (spec/Reload.tla, model check); the monitor is *)
 (* the same.                                                               *)
@@ -29,7 +29,8 @@
 (*     naming the first layer, which (d) is the active layer; (e) whatever *)
 (*     was down at the OS is released within `bound` iterations; (f) with  *)
 (*     no key held kanata becomes idle within `settle` iterations; (g)     *)
-(*     from that idle point on A = C.                                      *)
+(*     from that idle point on A = C; (h) a request does not stay pending  *)
+(*     for more than one second without input.                             *)
 (* F3  lrld reloads the file in use, lrld-next / lrld-prev its cyclic       *)
 (*     neighbours in command-line order, (lrld-num n) the n-th file; a      *)
 (*     requested file that parses during the whole batch is applied.        *)
@@ -38,8 +39,7 @@
 (*     F3x names the one deviation that is explained by "the index moved    *)
 (*     although the reload failed".                                         *)
 (* Soft (statement silent): (lrld-num n) with n outside the list; requests  *)
-(* that are still queued when another request's reload replaces the layout; *)
-(* whether a reload must come after one idle second with a key held.        *)
+(* that are still queued when another request's reload replaces the layout. *)
 (*                                                                         *)
 (* params = [files  : <<kind..>>  initial content kind of every file,       *)
 (*           valid  : <<kind..>>  kinds that parse,                         *)
@@ -49,11 +49,12 @@
 (*           req    : <<[c |-> code, k |-> "lrld"|"next"|"prev"|"num", n |-> Nat]..>>  request keys (every layer), *)
 (*           idxsem : "inuse" (statement: a failed request leaves no trace)   *)
 (*                    | "requested" (the index moves with every request),    *)
-(*           scap   : cap of the idle-time counter (1001 on traces),         *)
+(*           scap   : cap of the idle-time counter (sec + 20 on traces),     *)
 (*           sec    : iterations of "one idle second" (1000),               *)
 (*           bound, settle : Nat]                                           *)
 (* record r: [e |-> "d"|"u", c, A, B, C] | [e |-> "t", n, phys, A, B, C] | [e |-> "w", i, k, valid]            *)
-(* lane: [on |-> FALSE] | [on |-> TRUE, out, idle, cb, msgs, lrr, idx, layer, repl]                            *)
+(* lane: [on |-> FALSE] | [on |-> TRUE, out, idle, cb, msgs, lrr, idx, layer, repl]; C also carries run (the fresh       *)
+(*       instance exists) and, while run /\ ~on, its cb                                                          *)
 (***************************************************************************)
 EXTENDS Obs
 
@@ -129,8 +130,10 @@ ReloadChecks(m, a, down1, since1) ==
       \* the file that was loaded: as the notification names it; without one, as the active layer tells
       byMsg == IF rm = <<>> THEN {} ELSE {t \in All : IdxStr(t) = rm[1][2]}
       byLayer == {t \in All : IsValid(m, m.files[t + 1]) /\ m.p.first[m.files[t + 1]] = a.layer}
+      bl == byLayer \cap (T \cup Tc)
       cand == IF byMsg # {} THEN byMsg
-              ELSE IF byLayer \cap T # {} THEN byLayer \cap T ELSE byLayer \cap Tc
+              ELSE IF a.idx \in bl THEN {a.idx}      \* several files with that first layer: the index kanata holds decides
+              ELSE IF bl \cap T # {} THEN bl \cap T ELSE bl
       \* several files with the same first layer and no notification: the index kanata holds names the file
       t == IF cand = {} THEN 0 - 1 ELSE IF a.idx \in cand THEN a.idx ELSE CHOOSE x \in cand : TRUE
       k == IF t < 0 THEN "?" ELSE m.files[t + 1]
@@ -185,6 +188,8 @@ MonTick(m, r) ==
             THEN Fail(m1, "F1: ConfigFileReload was sent although the configuration was not replaced")
             ELSE IF a.lrr /\ down1 = {}
             THEN Fail(m1, "F2b: a reload is requested and no output key is down, but it was not carried out in this iteration")
+            ELSE IF a.lrr /\ since1 >= m.p.sec + 10
+            THEN Fail(m1, "F2h: a reload is still pending after more than one second without input (the one-idle-second fallback did not apply it)")
             ELSE IF ~a.lrr /\ a.idle /\ m1.pend # <<>>
             THEN \* every request of the batch has been processed and used up without a successful reload
                  LET fin == IF m1.p.idxsem = "requested" THEN {FinalReq(m1)} ELSE FinalInUse(m1) IN
@@ -214,7 +219,9 @@ MonTick(m, r) ==
             ELSE IF m2c.phase = "post" /\ quiet1 >= m.p.settle /\ ~a.cb
             THEN Fail(m2c, "F2f: after the reload, with no key held, kanata does not become idle")
             ELSE m2c
-      phase1 == IF m3.phase = "post" /\ a.cb /\ r.phys = 0 THEN "sync" ELSE m3.phase
+      \* the comparison with the fresh instance starts at the first idle point of both (the fresh instance exists from
+      \* the iteration after the reload; in the iteration of the reload it is trivially idle)
+      phase1 == IF m3.phase = "post" /\ a.cb /\ r.phys = 0 /\ (a.repl \/ (r.C.run /\ r.C.cb)) THEN "sync" ELSE m3.phase
   IN IF m3.err # "" THEN m3
      ELSE [m3 EXCEPT !.down = down1, !.since = since1, !.resid = resid1, !.age = age1, !.quiet = quiet1,
                      !.phase = phase1]
